@@ -155,7 +155,9 @@ class ClassInfo:
                         # self.x = ClassName(...)  /  self.x = <annotated parameter>
                         if isinstance(v, ast.Call) and isinstance(v.func, ast.Name) and v.func.id[:1].isupper():
                             inferred.setdefault(n.targets[0].attr, ast.Name(id=v.func.id, ctx=ast.Load()))
-                        elif isinstance(v, ast.Name):
+                        if isinstance(v, ast.BoolOp) and isinstance(v.op, ast.Or) and isinstance(v.values[0], ast.Name):
+                            v = v.values[0]  # self.x = param or <default>
+                        if isinstance(v, ast.Name):
                             for a in m.node.args.args + m.node.args.kwonlyargs:  # type: ignore[attr-defined]
                                 if a.arg == v.id and a.annotation is not None:
                                     inferred.setdefault(n.targets[0].attr, a.annotation)
